@@ -33,7 +33,8 @@ hvars == <<ui, u, store, clock, hist>>
 
 -----------------------------------------------------------------------------
 (* ---- generator of histories ---- *)
-ReqLists(c) == {s \in UNION {[1..k -> TasksOf(c)] : k \in 1..2} : \A i, j \in DOMAIN s : i < j => s[i] # s[j]}
+ReqLists(c) == IF c.twins THEN {<<t>> : t \in TasksOf(c)} ELSE    \* twins are equal in Python: one call requests one of them
+               {s \in UNION {[1..k -> TasksOf(c)] : k \in 1..2} : \A i, j \in DOMAIN s : i < j => s[i] # s[j]}
                \cup {SetToSeq(TasksOf(c))}
 
 Init == /\ ui \in 1..Len(Universes)
